@@ -55,7 +55,7 @@ def main():
     hooks_commits = [l.strip() for l in open('/verif/tools/hook_commits.txt') if l.strip()]
     m = {
         "version": 1,
-        "setup_cmd": "cd /verif && export GOFLAGS=-mod=mod GOPROXY=off GOSUMDB=off GOTOOLCHAIN=local && go1.26.8 build -o bin/verif ./cmd/verif && go1.26.8 build -o bin/simrewrite ./cmd/simrewrite && bin/verif build >/dev/null",
+        "setup_cmd": "cd /verif && export GOFLAGS=-mod=mod GOPROXY=off GOSUMDB=off GOTOOLCHAIN=local && go1.26.8 build -o bin/verif ./cmd/verif && go1.26.8 build -o bin/simrewrite ./cmd/simrewrite && bin/verif build race >/dev/null",
         "hooks": {
             "guard": "verif",
             "enable": "checks build the simulator with `go1.26.8 test -c -tags verif -overlay <scratch overlay of /repo>`; the only committed hook is /repo/verif_hooks.go (//go:build verif, add-only accessors); yield points are inserted at check time into the overlay copy, never into /repo",
